@@ -12,6 +12,7 @@ from ..core.report import Ctx
 
 MATOPS = "src/porepy/numerics/linalg/matrix_operations.py"
 CLS = "ArraySlicer"
+KERNELS = ("_slice_vector", "_slice_matrix")
 SWEEP_DIRS = ("src/porepy/numerics/ad", "src/porepy/numerics/linalg")
 
 # Language facts: dunder base name -> python binary operator.
@@ -19,6 +20,520 @@ PY_SYMBOL = {"add": "+", "sub": "-", "mul": "*", "truediv": "/", "pow": "**", "m
              "floordiv": "//", "mod": "%"}
 BINARY_BASES = set(PY_SYMBOL) | {"and", "or", "xor", "lshift", "rshift", "divmod",
                                  "eq", "ne", "lt", "le", "gt", "ge"}
+
+# ========================================================================================
+# Refactoring-tolerant normalisation (also imported by c38/c39/c40).
+#   * one-level inlining of private helpers (methods of the class or its bases in the module, module
+#     functions, nested defs) whose only `return` is their last statement
+#   * copy propagation of single-assignment locals bound to a name, a constant or a pure attribute chain
+#     (`bf = self.bf`, `ids = geom.cell_ids`, `operand = other`)
+#   * module-/class-level literal constants substituted at their uses
+#   * `.transpose()` -> `.T`;  "...{}...".format(a) / "...%s..." % a  -> f-string
+# The result is a deep copy; the repository tree is never modified.
+# ========================================================================================
+import copy as _copy
+import re as _re
+import string as _string
+
+
+def bound_names(fn: ast.AST) -> dict[str, int]:
+    """name -> number of binding sites in fn (parameters count as one; nested scopes not entered)."""
+    out: dict[str, int] = {}
+
+    def add(n: str) -> None:
+        out[n] = out.get(n, 0) + 1
+
+    if isinstance(fn, (ast.FunctionDef, ast.AsyncFunctionDef)):
+        a = fn.args
+        for x in a.posonlyargs + a.args + a.kwonlyargs + ([a.vararg] if a.vararg else []) + ([a.kwarg] if a.kwarg else []):
+            add(x.arg)
+    for n in walk_local(fn):
+        if n is fn:
+            continue
+        if isinstance(n, (ast.Assign, ast.AugAssign, ast.For, ast.AsyncFor, ast.With, ast.AsyncWith)) or \
+                (isinstance(n, ast.AnnAssign) and n.value is not None):
+            for t in assigned_targets(n):
+                if isinstance(t, ast.Name):
+                    add(t.id)
+        elif isinstance(n, (ast.FunctionDef, ast.AsyncFunctionDef, ast.ClassDef)):
+            add(n.name)
+        elif isinstance(n, ast.ExceptHandler) and n.name:
+            add(n.name)
+        elif isinstance(n, (ast.Import, ast.ImportFrom)):
+            for al in n.names:
+                add((al.asname or al.name).split(".")[0])
+        elif isinstance(n, ast.NamedExpr) and isinstance(n.target, ast.Name):
+            add(n.target.id)
+        elif isinstance(n, ast.Delete):
+            for t in n.targets:
+                if isinstance(t, ast.Name):
+                    add(t.id)
+    return out
+
+
+def _is_chain(e: ast.AST) -> bool:
+    while isinstance(e, ast.Attribute):
+        e = e.value
+    return isinstance(e, ast.Name)
+
+
+def _chain_root(e: ast.AST) -> str:
+    while isinstance(e, ast.Attribute):
+        e = e.value
+    return e.id  # type: ignore[union-attr]
+
+
+class _Subst(ast.NodeTransformer):
+    def __init__(self, mapping: dict[str, ast.expr], root: ast.AST | None = None):
+        self.mapping = mapping
+        self.changed = False
+        self.root = root
+
+    def _scoped(self, node, shadow: set):
+        if node is self.root or not (shadow & set(self.mapping)):
+            return self.generic_visit(node)
+        saved = self.mapping
+        self.mapping = {k: v for k, v in saved.items() if k not in shadow}
+        try:
+            return self.generic_visit(node)
+        finally:
+            self.mapping = saved
+
+    def visit_FunctionDef(self, node: ast.FunctionDef):
+        return self._scoped(node, set(bound_names(node)))
+
+    def visit_Lambda(self, node: ast.Lambda):
+        a = node.args
+        return self._scoped(node, {x.arg for x in a.posonlyargs + a.args + a.kwonlyargs})
+
+    def visit_Name(self, n: ast.Name):
+        if isinstance(n.ctx, ast.Load) and n.id in self.mapping:
+            self.changed = True
+            return ast.copy_location(_copy.deepcopy(self.mapping[n.id]), n)
+        return n
+
+
+class _Rename(ast.NodeTransformer):
+    def __init__(self, mapping: dict[str, str]):
+        self.mapping = mapping
+
+    def visit_Name(self, n: ast.Name):
+        if n.id in self.mapping:
+            n.id = self.mapping[n.id]
+        return n
+
+    def visit_arg(self, n: ast.arg):
+        if n.arg in self.mapping:
+            n.arg = self.mapping[n.arg]
+        return n
+
+
+def _fmt_to_joined(tmpl: str, args: list[ast.expr], kwargs: dict[str, ast.expr]):
+    vals: list[ast.expr] = []
+    auto = 0
+    try:
+        parsed = list(_string.Formatter().parse(tmpl))
+    except ValueError:
+        return None
+    for lit, field, spec, conv in parsed:
+        if lit:
+            vals.append(ast.Constant(value=lit))
+        if field is None:
+            continue
+        if field == "":
+            if auto >= len(args):
+                return None
+            v = args[auto]
+            auto += 1
+        elif field.isdigit():
+            if int(field) >= len(args):
+                return None
+            v = args[int(field)]
+        elif field in kwargs:
+            v = kwargs[field]
+        else:
+            return None
+        fs = ast.JoinedStr(values=[ast.Constant(value=spec)]) if spec else None
+        vals.append(ast.FormattedValue(value=_copy.deepcopy(v), conversion=ord(conv) if conv else -1, format_spec=fs))
+    return ast.JoinedStr(values=vals)
+
+
+_PCT = _re.compile(r"%(?:\((\w+)\))?[#0\- +]*\d*(?:\.\d+)?([sdifrgeExX%])")
+
+
+def _pct_to_joined(tmpl: str, right: ast.expr):
+    args = list(right.elts) if isinstance(right, ast.Tuple) else [right]
+    vals: list[ast.expr] = []
+    pos = 0
+    k = 0
+    for m in _PCT.finditer(tmpl):
+        if m.start() > pos:
+            vals.append(ast.Constant(value=tmpl[pos:m.start()]))
+        pos = m.end()
+        if m.group(2) == "%":
+            vals.append(ast.Constant(value="%"))
+            continue
+        if m.group(1) is not None or k >= len(args):
+            return None
+        vals.append(ast.FormattedValue(value=_copy.deepcopy(args[k]), conversion=-1, format_spec=None))
+        k += 1
+    if pos < len(tmpl):
+        vals.append(ast.Constant(value=tmpl[pos:]))
+    if k != len(args):
+        return None
+    return ast.JoinedStr(values=vals)
+
+
+class _Idioms(ast.NodeTransformer):
+    """x.transpose() -> x.T ; constant-template .format / % -> JoinedStr."""
+
+    def visit_Call(self, n: ast.Call):
+        self.generic_visit(n)
+        f = n.func
+        if isinstance(f, ast.Attribute) and f.attr == "transpose" and not n.args and not n.keywords:
+            return ast.copy_location(ast.Attribute(value=f.value, attr="T", ctx=ast.Load()), n)
+        if isinstance(f, ast.Attribute) and f.attr == "format" and isinstance(f.value, ast.Constant) and isinstance(f.value.value, str) \
+                and not any(isinstance(a, ast.Starred) for a in n.args) and all(k.arg for k in n.keywords):
+            j = _fmt_to_joined(f.value.value, list(n.args), {k.arg: k.value for k in n.keywords})
+            if j is not None:
+                return ast.copy_location(j, n)
+        return n
+
+    def visit_BinOp(self, n: ast.BinOp):
+        self.generic_visit(n)
+        if isinstance(n.op, ast.Mod) and isinstance(n.left, ast.Constant) and isinstance(n.left.value, str):
+            j = _pct_to_joined(n.left.value, n.right)
+            if j is not None:
+                return ast.copy_location(j, n)
+        return n
+
+
+def split_tuple_assign(s: ast.stmt):
+    """`a, b = x, y` -> `a = x; b = y` when no right-hand side reads something the statement writes."""
+    if not (isinstance(s, ast.Assign) and len(s.targets) == 1 and isinstance(s.targets[0], (ast.Tuple, ast.List))
+            and isinstance(s.value, (ast.Tuple, ast.List)) and len(s.targets[0].elts) == len(s.value.elts)):
+        return None
+    tg, vs = s.targets[0].elts, s.value.elts
+    if any(isinstance(x, ast.Starred) for x in list(tg) + list(vs)):
+        return None
+    written = {u(t) for t in tg} | {n.id for t in tg for n in [t] if isinstance(n, ast.Name)}
+    for v in vs:
+        txt = {u(n) for n in ast.walk(v) if isinstance(n, (ast.Name, ast.Attribute, ast.Subscript))}
+        if txt & written:
+            return None
+    out = []
+    for t, v in zip(tg, vs):
+        out.append(ast.copy_location(ast.Assign(targets=[t], value=v), s))
+    return out
+
+
+def loops_to_comprehensions(stmts: list[ast.stmt]) -> list[ast.stmt]:
+    """`L = []` ... `for t in X: L.append(E)`  ->  `L = [E for t in X]`   (same for `D = {}` / `D[k] = E`),
+    when nothing between the two statements mentions L and the loop body is that single statement."""
+    out = list(stmts)
+    changed = True
+    while changed:
+        changed = False
+        for i, s in enumerate(out):
+            if not (isinstance(s, (ast.Assign, ast.AnnAssign)) and getattr(s, "value", None) is not None):
+                continue
+            tg = assigned_targets(s)
+            if len(tg) != 1 or not isinstance(tg[0], ast.Name):
+                continue
+            L = tg[0].id
+            v = s.value
+            empty_list = (isinstance(v, ast.List) and not v.elts) or (isinstance(v, ast.Call) and u(v.func) == "list" and not v.args)
+            empty_dict = (isinstance(v, ast.Dict) and not v.keys) or (isinstance(v, ast.Call) and u(v.func) == "dict" and not v.args and not v.keywords)
+            if not (empty_list or empty_dict):
+                continue
+            for j in range(i + 1, len(out)):
+                t = out[j]
+                if isinstance(t, ast.For) and not t.orelse and len(t.body) == 1:
+                    b = t.body[0]
+                    comp = None
+                    gen = ast.comprehension(target=t.target, iter=t.iter, ifs=[], is_async=0)
+                    inner_if = None
+                    if isinstance(b, ast.If) and not b.orelse and len(b.body) == 1 and L not in names_in(b.test):
+                        inner_if, b = b.test, b.body[0]
+                        gen.ifs = [inner_if]
+                    if empty_list and isinstance(b, ast.Expr) and isinstance(b.value, ast.Call) and isinstance(b.value.func, ast.Attribute) \
+                            and b.value.func.attr == "append" and u(b.value.func.value) == L and len(b.value.args) == 1 \
+                            and L not in names_in(b.value.args[0]) and L not in names_in(t.iter):
+                        comp = ast.ListComp(elt=b.value.args[0], generators=[gen])
+                    if empty_dict and isinstance(b, ast.Assign) and len(b.targets) == 1 and isinstance(b.targets[0], ast.Subscript) \
+                            and u(b.targets[0].value) == L and L not in names_in(b.value) and L not in names_in(b.targets[0].slice) \
+                            and L not in names_in(t.iter):
+                        comp = ast.DictComp(key=b.targets[0].slice, value=b.value, generators=[gen])
+                    if comp is not None:
+                        new = ast.copy_location(ast.Assign(targets=[ast.Name(id=L, ctx=ast.Store())], value=comp), t)
+                        out = out[:i] + out[i + 1:j] + [new] + out[j + 1:]
+                        changed = True
+                        break
+                if any(isinstance(n, ast.Name) and n.id == L for n in ast.walk(t)):
+                    break
+            if changed:
+                break
+    return out
+
+
+class Normalizer:
+    def __init__(self, module):
+        self.mod = module
+        tree = module.tree
+        self.mod_funcs = {n.name: n for n in tree.body if isinstance(n, ast.FunctionDef)}
+        self.classes = {n.name: n for n in tree.body if isinstance(n, ast.ClassDef)}
+        self.mod_consts = self._consts(tree.body)
+        self._cc_cache: dict[int, dict] = {}
+
+    @staticmethod
+    def _consts(body: list[ast.stmt]) -> dict[str, ast.Constant]:
+        seen: dict[str, list] = {}
+        for s in body:
+            for t in assigned_targets(s):
+                if isinstance(t, ast.Name):
+                    seen.setdefault(t.id, []).append(s)
+        out = {}
+        for name, ss in seen.items():
+            if len(ss) == 1 and isinstance(ss[0], (ast.Assign, ast.AnnAssign)) and isinstance(getattr(ss[0], "value", None), ast.Constant) \
+                    and len(assigned_targets(ss[0])) == 1 and isinstance(ss[0].value.value, (str, int, float, bool)):
+                out[name] = ss[0].value
+        return out
+
+    def lookup_method(self, cls: ast.ClassDef | None, name: str, depth: int = 0):
+        if cls is None or depth > 4:
+            return None
+        m = methods(cls).get(name)
+        if m is not None:
+            return m
+        for b in cls.bases:
+            d = dotted(b)
+            if d and d.split(".")[-1] in self.classes:
+                r = self.lookup_method(self.classes[d.split(".")[-1]], name, depth + 1)
+                if r is not None:
+                    return r
+        return None
+
+    # -- public ----------------------------------------------------------------------------
+    def function(self, fn: ast.FunctionDef, cls: ast.ClassDef | None = None, inline: bool = True, keep=(),
+                 outer_bound=(), local_consts: bool = True) -> ast.FunctionDef:
+        out = _copy.deepcopy(fn)
+        self._inline(out, cls, set(keep), nested_source=fn, enabled=inline)
+        out = _Idioms().visit(out)
+        self._constants(out, cls, set(outer_bound))
+        self._copyprop(out, local_consts)
+        out = _Idioms().visit(out)
+        ast.fix_missing_locations(out)
+        return out
+
+    def methods(self, cls: ast.ClassDef, inline: bool = True, keep=()) -> dict[str, ast.FunctionDef]:
+        return {n: self.function(f, cls, inline, keep) for n, f in methods(cls).items()}
+
+    # -- constants ----------------------------------------------------------------------------
+    def _constants(self, fn: ast.FunctionDef, cls, outer_bound: set) -> None:
+        local = set(bound_names(fn)) | outer_bound
+        for sub in ast.walk(fn):
+            if sub is not fn and isinstance(sub, (ast.FunctionDef, ast.Lambda)):
+                local |= set(bound_names(sub)) if isinstance(sub, ast.FunctionDef) else {a.arg for a in sub.args.args}
+        mapping = {k: v for k, v in self.mod_consts.items() if k not in local}
+        if mapping:
+            _Subst(mapping, fn).visit(fn)
+        if cls is not None:
+            if id(cls) not in self._cc_cache:
+                cc0 = self._consts(cls.body)
+                inst = {t.attr for n in ast.walk(cls) if isinstance(n, (ast.Assign, ast.AugAssign, ast.AnnAssign))
+                        for t in assigned_targets(n) if isinstance(t, ast.Attribute)} if cc0 else set()
+                self._cc_cache[id(cls)] = {k: v for k, v in cc0.items() if k not in inst}
+            cc = self._cc_cache[id(cls)]
+            if cc:
+                class T(ast.NodeTransformer):
+                    def visit_Attribute(self, n: ast.Attribute):
+                        self.generic_visit(n)
+                        if isinstance(n.ctx, ast.Load) and n.attr in cc and isinstance(n.value, ast.Name) and \
+                                n.value.id in ("self", "cls", cls.name):
+                            return ast.copy_location(_copy.deepcopy(cc[n.attr]), n)
+                        return n
+                T().visit(fn)
+
+    # -- copy propagation ------------------------------------------------------------------------
+    @staticmethod
+    def _copyprop(fn: ast.FunctionDef, local_consts: bool = True) -> None:
+        for _ in range(6):
+            counts = bound_names(fn)
+            params = set(_params(fn))
+            stores_txt: dict[str, int] = {}
+            for s in ast.walk(fn):
+                if isinstance(s, (ast.Assign, ast.AugAssign, ast.AnnAssign)):
+                    for t in assigned_targets(s):
+                        if isinstance(t, ast.Attribute):
+                            stores_txt[u(t)] = min(stores_txt.get(u(t), 10 ** 9), s.lineno)
+            mapping: dict[str, ast.expr] = {}
+            for s in stmts_local(fn):
+                tgt = None
+                if isinstance(s, ast.Assign) and len(s.targets) == 1 and isinstance(s.targets[0], ast.Name):
+                    tgt = s.targets[0].id
+                elif isinstance(s, ast.AnnAssign) and s.value is not None and isinstance(s.target, ast.Name):
+                    tgt = s.target.id
+                if tgt is None or counts.get(tgt, 0) != 1 or tgt in params:
+                    continue
+                e = s.value
+                ok = False
+                if isinstance(e, ast.Constant):
+                    ok = local_consts
+                elif isinstance(e, ast.Name):
+                    ok = counts.get(e.id, 0) <= 1 and e.id != tgt
+                elif isinstance(e, ast.Attribute) and _is_chain(e) and counts.get(_chain_root(e), 0) <= 1 and _chain_root(e) != tgt:
+                    ok = not any(txt == u(e) or u(e).startswith(txt + ".") for txt in stores_txt)
+                if ok:
+                    mapping[tgt] = e
+            # drop chains through other mapped names (resolved in the next round)
+            mapping = {k: v for k, v in mapping.items() if not (names_in(v) & set(mapping))}
+            if not mapping:
+                return
+            sub = _Subst(mapping, fn)
+            sub.visit(fn)
+            if not sub.changed:
+                return
+
+    # -- helper inlining ---------------------------------------------------------------------------
+    def _resolve(self, call: ast.Call, cls, nested: dict[str, ast.FunctionDef], keep: set):
+        f = call.func
+        if isinstance(f, ast.Attribute) and f.attr.startswith("_") and not f.attr.startswith("__") and f.attr not in keep:
+            h = self.lookup_method(cls, f.attr)
+            if h is not None:
+                static = any(u(d).endswith("staticmethod") for d in h.decorator_list)
+                return h, (None if static else f.value)
+        if isinstance(f, ast.Name) and f.id.startswith("_") and f.id not in keep:
+            h = nested.get(f.id) or self.mod_funcs.get(f.id)
+            if h is not None:
+                return h, None
+        return None
+
+    @staticmethod
+    def _inlinable(h: ast.FunctionDef) -> bool:
+        a = h.args
+        if a.vararg or a.kwarg or a.kwonlyargs or a.posonlyargs:
+            return False
+        if any(not u(d).endswith("staticmethod") for d in h.decorator_list):
+            return False
+        body = body_nodoc(h)
+        if not body or len(body) > 60:
+            return False
+        rets = []
+        for n in walk_local(h):
+            if isinstance(n, (ast.Yield, ast.YieldFrom, ast.Global, ast.Nonlocal, ast.Await)):
+                return False
+            if isinstance(n, ast.Return):
+                rets.append(n)
+        return len(rets) == 0 or (len(rets) == 1 and rets[0] is body[-1])
+
+    def _inline(self, fn: ast.FunctionDef, cls, keep: set, nested_source: ast.FunctionDef, enabled: bool = True) -> None:
+        nested = {s.name: s for s in nested_source.body if isinstance(s, ast.FunctionDef)}
+        caller_names = {n.id for n in ast.walk(fn) if isinstance(n, ast.Name)} | set(_params(fn))
+        state = {"k": 0}
+
+        def one(s: ast.stmt):
+            call, kind = None, None
+            if isinstance(s, ast.Expr) and isinstance(s.value, ast.Call):
+                call, kind = s.value, "expr"
+            elif isinstance(s, ast.Assign) and isinstance(s.value, ast.Call):
+                call, kind = s.value, "assign"
+            elif isinstance(s, ast.AnnAssign) and isinstance(s.value, ast.Call) and isinstance(s.target, ast.Name):
+                call, kind = s.value, "assign"
+            elif isinstance(s, ast.Return) and isinstance(s.value, ast.Call):
+                call, kind = s.value, "return"
+            if call is None:
+                return None
+            r = self._resolve(call, cls, nested, keep)
+            if r is None:
+                return None
+            h, recv = r
+            if h is fn or h.name == fn.name or not self._inlinable(h):
+                return None
+            params = [x.arg for x in h.args.args]
+            if any(isinstance(a, ast.Starred) for a in call.args) or any(k.arg is None for k in call.keywords):
+                return None
+            argmap: dict[str, ast.expr] = {}
+            names = list(params)
+            if recv is not None:
+                if not names:
+                    return None
+                argmap[names[0]] = recv
+                names = names[1:]
+            if len(call.args) > len(names):
+                return None
+            for nm, a in zip(names, call.args):
+                argmap[nm] = a
+            for k in call.keywords:
+                if k.arg not in params or k.arg in argmap:
+                    return None
+                argmap[k.arg] = k.value
+            d = h.args.defaults
+            for nm, dv in zip(params[len(params) - len(d):], d):
+                argmap.setdefault(nm, dv)
+            if set(params) - set(argmap):
+                return None
+            hb = bound_names(h)
+            state["k"] += 1
+            suffix = f"__{h.name.strip('_')}{state['k'] if state['k'] > 1 else ''}"
+            rename: dict[str, str] = {}
+            for nm in hb:
+                same = nm in params and isinstance(argmap[nm], ast.Name) and argmap[nm].id == nm and hb[nm] == 1
+                if same:
+                    continue
+                if nm in params or nm in caller_names:
+                    rename[nm] = nm + suffix
+            pre = []
+            for p in params:
+                if p in rename:
+                    pre.append(ast.Assign(targets=[ast.Name(id=rename[p], ctx=ast.Store())], value=_copy.deepcopy(argmap[p])))
+            body = [_Rename(rename).visit(_copy.deepcopy(b)) for b in body_nodoc(h)]
+            tail: list[ast.stmt] = []
+            if body and isinstance(body[-1], ast.Return):
+                rv = body.pop().value or ast.Constant(value=None)
+            else:
+                rv = ast.Constant(value=None)
+            if kind == "expr":
+                if not isinstance(rv, ast.Constant):
+                    tail = [ast.Expr(value=rv)]
+            elif kind == "return":
+                tail = [ast.Return(value=rv)]
+            elif isinstance(s, ast.AnnAssign):
+                tail = [ast.Assign(targets=[s.target], value=rv)]
+            else:
+                tail = [ast.Assign(targets=s.targets, value=rv)]
+            new = pre + body + tail
+            for x in pre + tail:
+                ast.copy_location(x, s)
+            caller_names.update(rename.values())
+            caller_names.update(hb)
+            return new
+
+        def block(stmts: list[ast.stmt], allow: bool = True) -> list[ast.stmt]:
+            out: list[ast.stmt] = []
+            for s in loops_to_comprehensions(stmts):
+                if isinstance(s, (ast.FunctionDef, ast.AsyncFunctionDef, ast.ClassDef)):
+                    out.append(s)
+                    continue
+                sp = split_tuple_assign(s)
+                if sp is not None:
+                    out.extend(block(sp, allow))
+                    continue
+                for fld in ("body", "orelse", "finalbody"):
+                    lst = getattr(s, fld, None)
+                    if isinstance(lst, list) and lst and isinstance(lst[0], ast.stmt):
+                        setattr(s, fld, block(lst, allow))
+                for hd in getattr(s, "handlers", []) or []:
+                    hd.body = block(hd.body, allow)
+                for cs in getattr(s, "cases", []) or []:
+                    cs.body = block(cs.body, allow)
+                rep = one(s) if (enabled and allow) else None
+                out.extend(block(rep, False) if rep is not None else [s])
+            return out
+
+        fn.body = block(fn.body)
+        ast.fix_missing_locations(fn)
+
+
 
 META = {
     "explanation": (
@@ -46,7 +561,7 @@ META = {
                     "attributes of a slicer are only stored inside the class body"],
     "technique": "CFG reaching definitions + alias classification; def-use table agreement between __init__, copy, transpose and the dunders",
 }
-MIN_INSTANCES = {"R1": 7, "R2": 13, "R3": 5, "R4": 10, "R5": 5, "R6": 6, "R7": 6}
+MIN_INSTANCES = {"R1": 7, "R2": 13, "R3": 5, "R4": 10, "R5": 5, "R6": 5, "R7": 6}
 
 
 # ----------------------------------------------------------------------------------------
@@ -229,6 +744,14 @@ def _init_facts(init: ast.FunctionDef):
     # flow-insensitive: local name -> params it may derive from
     dep: dict[str, set[str]] = {p: {p} for p in params}
     assigns = [s for s in stmts_local(init) if isinstance(s, (ast.Assign, ast.AnnAssign)) and getattr(s, "value", None) is not None]
+    def data_names(e: ast.expr) -> set[str]:
+        skip = set()
+        for n in ast.walk(e):
+            if isinstance(n, ast.Compare) and all(isinstance(o, (ast.Is, ast.IsNot)) for o in n.ops) and \
+                    all(isinstance(c, ast.Constant) and c.value is None for c in n.comparators):
+                skip |= {id(x) for x in ast.walk(n)}
+        return {n.id for n in ast.walk(e) if isinstance(n, ast.Name) and id(n) not in skip}
+
     changed = True
     while changed:
         changed = False
@@ -236,7 +759,7 @@ def _init_facts(init: ast.FunctionDef):
             for t in assigned_targets(s):
                 if isinstance(t, ast.Name):
                     d = set()
-                    for nm in names_in(s.value):
+                    for nm in data_names(s.value):
                         d |= dep.get(nm, set())
                     if not d <= dep.setdefault(t.id, set()):
                         dep[t.id] |= d
@@ -246,7 +769,7 @@ def _init_facts(init: ast.FunctionDef):
         for t in assigned_targets(s):
             if isinstance(t, ast.Attribute) and isinstance(t.value, ast.Name) and t.value.id == "self":
                 attr_rhs.setdefault(t.attr, []).append(s.value)
-    deps = {a: set().union(*[set().union(*[dep.get(nm, set()) for nm in names_in(r)] or [set()]) for r in rs])
+    deps = {a: set().union(*[set().union(*[dep.get(nm, set()) for nm in data_names(r)] or [set()]) for r in rs])
             for a, rs in attr_rhs.items()}
     stores: dict[str, set[str]] = {p: set() for p in params}
     for a, rs in attr_rhs.items():
@@ -328,27 +851,38 @@ def _r7_pending_slot(ctx: Ctx, mod, meths, pend) -> None:
     operand_attr = pend[0]
     n = 0
     for name, fn in meths.items():
+        if not _is_binary_dunder(name, fn):
+            continue  # helpers are inlined into the operators (one level); findings are reported on the operators
+        order = {id(st): k for k, st in enumerate(stmts_local(fn))}
         stores_ = [st for st in stmts_local(fn) if isinstance(st, ast.Assign) and any(
             isinstance(t, ast.Attribute) and t.attr == operand_attr for t in st.targets)]
-        if name in ("__init__", "copy") or not stores_:
+        if not stores_:
             continue
-        for st in stores_:
-            n += 1
-            reads = [nd for nd in walk_local(fn) if isinstance(nd, ast.Attribute) and nd.attr == operand_attr and isinstance(nd.ctx, ast.Load)]
-            # reads inside the evaluation site (`if self._pending_operand is not None: eval(...)`) do not guard the store
-            guarding = [r for r in reads if r.lineno <= st.lineno]
-            ctx.check("R7", bool(guarding), mod, f"{CLS}.{name}", st,
-                      f"{name} stores a new pending operand on a copy without looking at a pending operation the copied slicer may already "
-                      f"carry: the earlier operation is dropped (e.g. 2.0 * (3.0 * S) @ y gives 2.0 * (S @ y); S0 @ (5.0 * S) @ y loses the 5.0)",
-                      construct=f"{CLS}.{name}: pending slot overwritten")
+        n += 1
+        st = stores_[0]
+        # a read of the pending operand at or before the store (a guard, or composition in the stored value);
+        # the evaluation site of __matmul__ comes after its slicer arm and does not count
+        guarding = []
+        for s2 in stmts_local(fn):
+            if order[id(s2)] > order[id(st)]:
+                continue
+            heads = [s2.test] if isinstance(s2, (ast.If, ast.While)) else ([] if isinstance(s2, (ast.For, ast.With, ast.Try)) else [s2])
+            for h in heads:
+                guarding += [nd for nd in ast.walk(h) if isinstance(nd, ast.Attribute) and nd.attr == operand_attr and isinstance(nd.ctx, ast.Load)]
+        ctx.check("R7", bool(guarding), mod, f"{CLS}.{name}", st,
+                  f"{name} stores a new pending operand on a copy without looking at a pending operation the copied slicer may already "
+                  f"carry: the earlier operation is dropped (e.g. 2.0 * (3.0 * S) @ y gives 2.0 * (S @ y); S0 @ (5.0 * S) @ y loses the 5.0)",
+                  construct=f"{CLS}.{name}: pending slot overwritten")
     if n < 6:
-        raise AnchorError(f"{CLS}: expected at least 6 methods storing a pending operand, found {n}")
+        raise AnchorError(f"{CLS}: expected at least 6 operators storing a pending operand, found {n}")
 
 
 def run(ctx: Ctx) -> None:
     mod = ctx.repo.module(MATOPS)
     cls = mod.cls(CLS)
-    meths = methods(cls)
+    norm = Normalizer(mod)
+    # every method with private one-level helpers inlined, aliases/constants propagated (deep copies)
+    meths = norm.methods(cls, inline=True, keep=KERNELS)
     for need in ("__init__", "copy", "transpose", "__matmul__", "_slice_vector", "_slice_matrix"):
         if need not in meths:
             raise AnchorError(f"{MATOPS}:{CLS}.{need} missing")
@@ -366,8 +900,8 @@ def run(ctx: Ctx) -> None:
     pend = _r4_eval_site(ctx, mod, meths)          # (operand_attr, operation_attr, result_var)
     _r3_dispatch(ctx, mod, meths, pend, stores)
     _r4_reflected(ctx, mod, meths, pend)
-    _r5_transpose(ctx, mod, meths, stores, ctor_params, deps)
-    _r6_kernels(ctx, mod, meths, stores, deps)
+    onto_attrs = _r6_kernels(ctx, mod, meths, stores, deps)
+    _r5_transpose(ctx, mod, meths, stores, ctor_params, onto_attrs)
     _r7_pending_slot(ctx, mod, meths, pend)
     if ctx.tier == "thorough":
         _sweep(ctx)
@@ -399,24 +933,39 @@ def _r1_purity(ctx: Ctx, mod, cls, meths) -> None:
 
 # ---------------- R2 ---------------------------------------------------------------------
 
-def _class_attrs(cls: ast.ClassDef) -> dict[str, list[str]]:
+def _class_attrs_of(meths: dict) -> dict[str, list[str]]:
     """attribute name -> methods storing it (on any receiver; receivers inside the class
     body are slicers: self, copies, transposes)."""
     out: dict[str, list[str]] = {}
-    for name, fn in methods(cls).items():
+    for name, fn in meths.items():
         for s in stmts_local(fn):
             if isinstance(s, ast.AnnAssign) and s.value is None:
                 continue
             for t in assigned_targets(s):
                 if isinstance(t, ast.Attribute) and isinstance(t.value, ast.Name):
                     out.setdefault(t.attr, []).append(name)
+            for a, _src in _setattr_loop(s):
+                out.setdefault(a, []).append(name)
+    return out
+
+
+def _setattr_loop(s: ast.stmt) -> list[tuple[str, ast.Call]]:
+    """`for n in ("a", "b"): setattr(T, n, getattr(S, n))` -> [("a", call), ("b", call)]."""
+    if not (isinstance(s, ast.For) and isinstance(s.target, ast.Name) and isinstance(s.iter, (ast.Tuple, ast.List))
+            and all(isinstance(e, ast.Constant) and isinstance(e.value, str) for e in s.iter.elts)):
+        return []
+    out = []
+    for st in s.body:
+        if isinstance(st, ast.Expr) and isinstance(st.value, ast.Call) and isinstance(st.value.func, ast.Name) \
+                and st.value.func.id == "setattr" and len(st.value.args) == 3 and u(st.value.args[1]) == s.target.id:
+            out += [(e.value, st.value) for e in s.iter.elts]
     return out
 
 
 def _r2_copy(ctx: Ctx, mod, cls, meths, attr_rhs, deps, stores, ctor_params) -> None:
     fn = meths["copy"]
     q = f"{CLS}.copy"
-    attrs = _class_attrs(cls)
+    attrs = _class_attrs_of(meths)
     if len(attrs) < 3:
         raise AnchorError(f"{CLS}: attribute stores not found")
     rets = [s for s in stmts_local(fn) if isinstance(s, ast.Return)]
@@ -452,12 +1001,23 @@ def _r2_copy(ctx: Ctx, mod, cls, meths, attr_rhs, deps, stores, ctor_params) -> 
                   facts={"param": p, "arg": u(e) if e is not None else None, "stored_in": sorted(stores[p])},
                   desc=f"copy() passes constructor parameter {p} from the attribute that stores it")
     explicit: dict[str, ast.stmt] = {}
+    looped: dict[str, ast.stmt] = {}
     for s in stmts_local(fn):
         if isinstance(s, ast.Assign):
             for t in s.targets:
                 if isinstance(t, ast.Attribute) and isinstance(t.value, ast.Name) and t.value.id == new:
                     explicit[t.attr] = s
+        for a, call in _setattr_loop(s):
+            v = call.args[2]
+            same = (u(call.args[0]) == new and isinstance(v, ast.Call) and isinstance(v.func, ast.Name) and v.func.id == "getattr"
+                    and [u(x) for x in v.args] == ["self", u(call.args[1])])
+            if not same:
+                raise Undecided(f"{q}: attribute loop `{u(call)}` is not setattr({new}, name, getattr(self, name))")
+            looped[a] = s
     for a in sorted(attrs):
+        if a in looped and a not in explicit:
+            ctx.check("R2", True, mod, q, looped[a], "", construct=f"copy transfers {a}", desc=f"copy() transfers {a} in an attribute loop")
+            continue
         if a in explicit:
             src = _self_attr_source(explicit[a].value)
             ok = src == a
@@ -486,6 +1046,15 @@ def _r4_eval_site(ctx: Ctx, mod, meths):
     fn = meths["__matmul__"]
     q = f"{CLS}.__matmul__"
     evals = [c for c in calls_in(fn) if isinstance(c.func, ast.Name) and c.func.id == "eval"]
+    if not evals:
+        # the evaluation may have been moved into a (non-inlinable) helper called from __matmul__
+        for c in calls_in(fn):
+            if isinstance(c.func, ast.Attribute) and u(c.func.value) == "self" and c.func.attr in meths and c.func.attr != "__matmul__":
+                h = meths[c.func.attr]
+                he = [e for e in calls_in(h) if isinstance(e.func, ast.Name) and e.func.id == "eval"]
+                if he:
+                    fn, q, evals = h, f"{CLS}.{c.func.attr}", he
+                    break
     if len(evals) != 1:
         raise Undecided(f"{q}: expected exactly one eval(...) applying the pending operation, found {len(evals)}")
     ev = evals[0]
@@ -532,8 +1101,16 @@ def _r4_eval_site(ctx: Ctx, mod, meths):
             guard = (par, any(cur is s or cur in ast.walk(s) for s in par.body))
             break
         cur = par
+    early = False
     if guard is None:
-        raise Undecided(f"{q}: eval not under a guard on the pending operand")
+        # early-return form:  if <nothing pending>: return <sliced>   ...   return eval(...)
+        evtop = [s for s in fn.body if ev in list(ast.walk(s))]
+        prev = fn.body[:fn.body.index(evtop[0])] if evtop else []
+        cand = [s for s in prev if isinstance(s, ast.If) and not s.orelse and s.body and isinstance(s.body[-1], ast.Return)
+                and isinstance(s.test, ast.Compare) and u(s.test.left) in (f"self.{operand_attr}", f"self.{operation_attr}")]
+        if len(cand) != 1:
+            raise Undecided(f"{q}: eval not under a guard on the pending operand")
+        guard, early = (cand[0], False), True
     iff, in_body = guard
     t = iff.test
     form = None
@@ -544,6 +1121,7 @@ def _r4_eval_site(ctx: Ctx, mod, meths):
         raise Undecided(f"{q}: guard of the pending evaluation `{u(t)}` is not an `is (not) None` test of the pending state")
     taken_when_pending = (form == "isnot") == in_body
     other_branch = iff.orelse if in_body else iff.body
+    rest = fn.body[fn.body.index(iff) + 1:] if early else []
     rets_other = [s for b in other_branch for s in ast.walk(b) if isinstance(s, ast.Return)]
     plain_ok = bool(rets_other) and all(isinstance(r.value, ast.Name) and r.value.id == res_var for r in rets_other)
     ctx.check("R4", taken_when_pending and plain_ok, mod, q, iff,
@@ -551,7 +1129,7 @@ def _r4_eval_site(ctx: Ctx, mod, meths):
               "returned otherwise", construct=f"pending guard: {u(t)} -> eval in {'body' if in_body else 'else'}",
               facts={"test": u(t), "eval_in_body": in_body, "other_branch_returns": [u(r) for r in rets_other]})
     # the eval result is what is returned in that branch
-    mine = iff.body if in_body else iff.orelse
+    mine = rest if early else (iff.body if in_body else iff.orelse)
     evstmt = [s for s in mine if ev in list(ast.walk(s))]
     rets = [s for b in mine for s in ast.walk(b) if isinstance(s, ast.Return)]
     ok_ret = False
@@ -585,40 +1163,47 @@ def _arms(fn: ast.FunctionDef, var: str):
     """Flatten every if/elif chain over isinstance(var, ...) at the top level of fn:
     -> (arms: list[(types, body, if-node)], else_bodies: list[list[stmt]])."""
     arms, elses = [], []
-    for s in body_nodoc(fn):
+    body = body_nodoc(fn)
+    last_arm_pos = -1
+    for pos, s in enumerate(body):
         cur = s
         while isinstance(cur, ast.If) and _isinstance_types(cur.test, var) is not None:
             arms.append((_isinstance_types(cur.test, var), cur.body, cur))
+            last_arm_pos = pos
             if len(cur.orelse) == 1 and isinstance(cur.orelse[0], ast.If):
                 cur = cur.orelse[0]
             else:
                 if cur.orelse:
                     elses.append(cur.orelse)
                 break
+    # `if isinstance(..): return ...` sequences: what follows the last arm plays the role of the else branch
+    if arms and not elses and all(b and isinstance(b[-1], (ast.Return, ast.Raise)) for _, b, _ in arms):
+        tail = body[last_arm_pos + 1:]
+        if tail:
+            elses.append(tail)
     return arms, elses
 
 
-def _arm_result(body: list[ast.stmt], res_var: str) -> ast.expr | None:
-    """Expression the arm produces (assigned to res_var or returned), arm-local temporaries inlined."""
+def _arm_result(body: list[ast.stmt], res_var: str | None = None) -> ast.expr | None:
+    """Expression the arm produces (its last assignment / what it returns), arm-local temporaries inlined."""
     env: dict[str, ast.expr] = {}
+    last = None
     for s in body:
         if isinstance(s, ast.Assign) and len(s.targets) == 1 and isinstance(s.targets[0], ast.Name):
             val = subst(s.value, env)
-            if s.targets[0].id == res_var:
-                return val  # type: ignore[return-value]
-            env[s.targets[0].id] = val
+            env[s.targets[0].id] = val  # type: ignore[assignment]
+            last = val
         elif isinstance(s, ast.AnnAssign) and s.value is not None and isinstance(s.target, ast.Name):
             val = subst(s.value, env)
-            if s.target.id == res_var:
-                return val  # type: ignore[return-value]
-            env[s.target.id] = val
+            env[s.target.id] = val  # type: ignore[assignment]
+            last = val
         elif isinstance(s, ast.Return) and s.value is not None:
             return subst(s.value, env)  # type: ignore[return-value]
-        elif isinstance(s, (ast.Expr, ast.Pass)):
+        elif isinstance(s, (ast.Expr, ast.Pass)) or (isinstance(s, ast.AnnAssign) and s.value is None):
             continue
         else:
             return None
-    return None
+    return last  # type: ignore[return-value]
 
 
 def _kernel_call(e: ast.expr):
@@ -638,7 +1223,21 @@ def _r3_dispatch(ctx: Ctx, mod, meths, pend, stores) -> None:
         raise AnchorError(f"{q}: expected (self, operand)")
     x = ps[1]
     arms, elses = _arms(fn, x)
-    if len(arms) < 3:
+    if len([a for a in arms if CLS not in a[0]]) < 3:
+        # the dispatch may have been extracted into a helper that __matmul__ calls with its operand
+        for c in calls_in(fn):
+            if isinstance(c.func, ast.Attribute) and u(c.func.value) == "self" and c.func.attr in meths and c.func.attr not in KERNELS \
+                    and any(u(a) == x for a in c.args):
+                h = meths[c.func.attr]
+                hx = _params(h)[1 + [u(a) for a in c.args].index(x)] if len(_params(h)) > 1 + [u(a) for a in c.args].index(x) else None
+                if hx is None:
+                    continue
+                ha, he = _arms(h, hx)
+                if len(ha) >= 3:
+                    arms = [a for a in arms if CLS in a[0]] + ha
+                    elses, fn, q, x = he, h, f"{CLS}.{c.func.attr}", hx
+                    break
+    if len([a for a in arms if CLS not in a[0]]) < 3:
         raise AnchorError(f"{q}: isinstance dispatch over `{x}` not found")
     VEC, MAT = "_slice_vector", "_slice_matrix"
     dom_size_attrs = stores.get("domain_size", set())
@@ -655,7 +1254,9 @@ def _r3_dispatch(ctx: Ctx, mod, meths, pend, stores) -> None:
                       construct=f"dispatch arm: {kind} <- missing", facts={"arms": [sorted(t) for t, _, _ in arms]})
             continue
         for ts, body, node in hit:
-            e = _arm_result(body, res_var)
+            if CLS in ts:
+                continue
+            e = _arm_result(body)
             if e is None:
                 raise Undecided(f"{q}: cannot extract the result of the {kind} arm")
             ok, want, got = True, "", u(e)
@@ -687,8 +1288,10 @@ def _r3_dispatch(ctx: Ctx, mod, meths, pend, stores) -> None:
                 if kc is None or kc[0] not in (VEC, MAT):
                     raise Undecided(f"{q}: scalar arm does not call a slicing kernel: {got}")
                 arg = kc[1]
-                if isinstance(arg, ast.Call) and call_name(arg) == "full" and len(arg.args) >= 2:
-                    size, fill = arg.args[0], arg.args[1]
+                from ..core.astutil import arg_or_kw
+                size = arg_or_kw(arg, 0, "shape") if isinstance(arg, ast.Call) else None
+                fill = arg_or_kw(arg, 1, "fill_value") if isinstance(arg, ast.Call) else None
+                if isinstance(arg, ast.Call) and call_name(arg) == "full" and size is not None and fill is not None:
                     size_attr = size.attr if isinstance(size, ast.Attribute) and u(size.value) == "self" else None
                     if size_attr is None:
                         raise Undecided(f"{q}: scalar arm broadcasts to a size that is not an attribute of self: {u(size)}")
@@ -700,7 +1303,7 @@ def _r3_dispatch(ctx: Ctx, mod, meths, pend, stores) -> None:
                       f"through the vector kernel, Jacobians/matrices through the matrix kernel)",
                       construct=f"dispatch arm: {kind} -> {got}", facts={"types": sorted(ts), "result": got})
             ctx.sample({"rule": "R3", "kind": kind, "types": sorted(ts), "result": got})
-    ok_else = bool(elses) and all(any(isinstance(s, ast.Raise) for s in b) for b in elses)
+    ok_else = bool(elses) and all(b and isinstance(b[-1], ast.Raise) for b in elses)
     ctx.check("R3", ok_else, mod, q, fn, "an operand of unsupported type must raise (final else of the dispatch)",
               construct="dispatch: final else raises")
 
@@ -804,7 +1407,7 @@ def _swap(p: str) -> str:
     raise Undecided(f"constructor parameter {p} is neither a domain nor a range quantity")
 
 
-def _r5_transpose(ctx: Ctx, mod, meths, stores, ctor_params, deps) -> None:
+def _r5_transpose(ctx: Ctx, mod, meths, stores, ctor_params, onto_attrs) -> None:
     fn = meths["transpose"]
     q = f"{CLS}.transpose"
     cc = _ctor_call(fn, CLS)
@@ -827,7 +1430,6 @@ def _r5_transpose(ctx: Ctx, mod, meths, stores, ctor_params, deps) -> None:
                   f"{u(e) if e is not None else 'nothing (recomputed from defaults)'}",
                   construct=f"transpose {p} <- {u(e) if e is not None else 'missing'}")
     # the onto shortcut ignores the range indices, so it must not be carried to the transpose
-    onto_attrs = {a for a, d in deps.items() if not d and a.lower().find("onto") >= 0}
     bad = [s for s in stmts_local(fn) if isinstance(s, ast.Assign) for t in s.targets
            if isinstance(t, ast.Attribute) and t.attr in onto_attrs and not (isinstance(s.value, ast.Constant) and s.value.value is False)]
     ctx.check("R5", not bad, mod, q, bad[0] if bad else fn,
@@ -847,12 +1449,10 @@ def _resolve_local(fn: ast.FunctionDef, e: ast.expr, depth: int = 6) -> ast.expr
     return inline_locals(fn, e, stop=set(_params(fn)), depth=depth)
 
 
-def _r6_kernels(ctx: Ctx, mod, meths, stores, deps) -> None:
+def _r6_kernels(ctx: Ctx, mod, meths, stores, deps) -> set[str]:
     dom_idx, rng_idx = stores["domain_indices"], stores["range_indices"]
     rng_size = stores["range_size"]
-    onto_attrs = {a for a, d in deps.items() if not d and "onto" in a.lower()}
-    if not onto_attrs:
-        raise AnchorError(f"{CLS}: onto flag not found")
+    onto_attrs: set[str] = set()
     onto_index: dict[str, str] = {}
     for kname in ("_slice_vector", "_slice_matrix"):
         fn = meths[kname]
@@ -862,7 +1462,8 @@ def _r6_kernels(ctx: Ctx, mod, meths, stores, deps) -> None:
             raise AnchorError(f"{q}: expected (self, operand)")
         x = ps[1]
         # onto shortcut: if self.<onto>: return x[self.<domain indices>]
-        ifs = [s for s in stmts_local(fn) if isinstance(s, ast.If) and _self_attr(s.test) in onto_attrs]
+        ifs = [s for s in stmts_local(fn) if isinstance(s, ast.If) and _self_attr(s.test) is not None
+               and any(isinstance(r, ast.Return) and isinstance(r.value, ast.Subscript) and u(r.value.value) == x for r in s.body)]
         if len(ifs) != 1:
             raise Undecided(f"{q}: onto shortcut not of the form `if self.<onto>: return ...`")
         rets = [s for s in ifs[0].body if isinstance(s, ast.Return)]
@@ -873,6 +1474,7 @@ def _r6_kernels(ctx: Ctx, mod, meths, stores, deps) -> None:
         if ia is None or u(sub.value) != x:
             raise Undecided(f"{q}: onto shortcut `{u(sub)}` is not {x}[self.<indices>]")
         onto_index[kname] = ia
+        onto_attrs.add(_self_attr(ifs[0].test))
         ctx.check("R6", ia in dom_idx, mod, q, rets[0],
                   f"onto shortcut selects rows with self.{ia}; rows are selected from the operand, i.e. by the domain indices "
                   f"({sorted(dom_idx)})", construct=f"{kname} onto: {u(sub)}")
@@ -898,7 +1500,11 @@ def _r6_kernels(ctx: Ctx, mod, meths, stores, deps) -> None:
         raise Undecided(f"{q}: allocation of `{vecname}` not found")
     for st in zeros:
         shp = st.value.args[0] if st.value.args else kwarg(st.value, "shape")
-        first = shp.elts[0] if isinstance(shp, ast.Tuple) else shp
+        if shp is not None:
+            shp = _resolve_local(fn, shp)
+        while isinstance(shp, ast.BinOp) and isinstance(shp.op, ast.Add):
+            shp = shp.left  # (rows,) + x.shape[1:]
+        first = shp.elts[0] if isinstance(shp, ast.Tuple) and shp.elts else shp
         fa = _self_attr(first) if first is not None else None
         if fa is None:
             raise Undecided(f"{q}: allocation size `{u(st.value)}` is not an attribute of self")
@@ -914,7 +1520,7 @@ def _r6_kernels(ctx: Ctx, mod, meths, stores, deps) -> None:
     rets = [r for r in stmts_local(fn) if isinstance(r, ast.Return) and isinstance(r.value, ast.Call) and r.value in ctors]
     if len(rets) != 1:
         raise Undecided(f"{q}: result constructor not found")
-    shp = kwarg(rets[0].value, "shape")
+    shp = kwarg(rets[0].value, "shape") or (rets[0].value.args[1] if len(rets[0].value.args) > 1 else None)
     if shp is None:
         raise Undecided(f"{q}: result constructed without explicit shape")
     shp = _resolve_local(fn, shp)
@@ -926,6 +1532,9 @@ def _r6_kernels(ctx: Ctx, mod, meths, stores, deps) -> None:
     ctx.check("R6", fa in rng_size and u(shp.elts[1]) == f"{A}.shape[1]", mod, q, rets[0],
               f"sliced matrix must have shape (self.<range size>, {A}.shape[1]); found {u(shp)}",
               construct=f"_slice_matrix shape: {u(shp)}")
+    if len(onto_attrs) != 1:
+        raise Undecided(f"{CLS}: the two kernels test different onto flags {sorted(onto_attrs)}")
+    return onto_attrs
 
 
 # ---------------- thorough: sweep + notes ------------------------------------------------------
